@@ -51,6 +51,8 @@ def make_result(seedt):
     second = gen.second_channel(rng, x, "mixed")
     if cross and rng.random() < 0.12:
         second = np.zeros(N)            # a dead second channel: Hxy = 0 exactly at every bin
+    elif cross and rng.random() < 0.08:
+        x = np.full(N, float(rng.choice([0.0, 3.0])))   # a dead / stuck FIRST channel
     data = np.vstack([x, second]) if cross else x
     fs = float(rng.choice([1.0, 2.0, 250.0]))
     kw = dict(order=int(rng.choice([-1, 0, 1, 2])), scheduler=str(rng.choice(gen.SCHEDS)),
@@ -150,6 +152,30 @@ def check_measurement(res, rec, rng):
             pool.append(nm)
     if pool:
         names = names + [str(n) for n in rng.choice(pool, size=min(5, len(pool)), replace=False)]
+    # attributes whose tabulated values are legitimately non-finite at some bins (cf_db = -inf for
+    # Hxy = 0, error bars = inf for zero coherence): a grid frequency / a frequency outside the
+    # grid must still return the tabulated value
+    for nm in data_names(res):
+        v = getattr(res, nm)
+        if isinstance(v, np.ndarray) and v.shape == f.shape and v.dtype.kind == "f" \
+                and not np.all(np.isfinite(v)) and not np.any(np.isnan(v)):
+            rec.count("measurement_queries_nonfinite_table")
+            got = np.asarray(res.get_measurement(f, nm))
+            fin = np.isfinite(v)
+            ok = got.shape == v.shape and np.array_equal(got[~fin], v[~fin]) \
+                and np.allclose(got[fin], v[fin], rtol=1e-12, atol=0)
+            j = int(np.nonzero(~fin)[0][0])
+            gj = res.get_measurement(float(f[j]), nm)
+            lo = res.get_measurement(float(f[0]) * 0.5 - 1.0, nm)
+            hi = res.get_measurement(float(f[-1]) * 2 + 1.0, nm)
+
+            def _same(a, b):
+                return (a == b) or (np.isfinite(b) and abs(a - b) <= 1e-12 * abs(b))
+            if not (ok and _same(gj, v[j]) and _same(lo, v[0]) and _same(hi, v[-1])):
+                rec.violation("measurement-nonfinite-table",
+                              f"get_measurement of '{nm}' (tabulated {v[j]!r} at f[{j}]): grid query "
+                              f"gives {gj!r}, below-grid {lo!r} (table {v[0]!r}), above-grid {hi!r} "
+                              f"(table {v[-1]!r})")
     for which in names:
         tab = np.asarray(getattr(res, which))
         rec.count("measurement_queries")
